@@ -19,4 +19,6 @@ func init() {
 	mut("C09", "continuation-rest-not-advanced", "h2/relay.go", "\t\tchunks = append(chunks, buf)\n\t\tremaining = remaining[nextChunkLength:]\n", "\t\tchunks = append(chunks, buf)\n\t\tremaining = remaining[len(buf)-1:]\n", "C09.R5", "advanced by the chunk")
 	mut("C09", "first-chunk-not-clamped", "h2/relay.go", "\tif firstChunkLength > firstChunkMax {\n\t\tfirstChunkLength = firstChunkMax\n\t}\n", "\tif firstChunkLength < firstChunkMax {\n\t\tfirstChunkLength = firstChunkMax\n\t}\n", "C09.R5", "at most its limit")
 	twin("C09", "clamp-written-with-min-form", "h2/relay.go", "\tif firstChunkLength > firstChunkMax {\n\t\tfirstChunkLength = firstChunkMax\n\t}\n", "\tif firstChunkMax <= firstChunkLength {\n\t\tfirstChunkLength = firstChunkMax\n\t}\n")
+	twin("C09", "window-increment-commuted", "h2/relay.go", "r.connectionWindowSize += int(f.Increment)", "r.connectionWindowSize = int(f.Increment) + r.connectionWindowSize")
+	mut("C09", "window-increment-commuted-sub", "h2/relay.go", "r.connectionWindowSize += int(f.Increment)", "r.connectionWindowSize = int(f.Increment) - r.connectionWindowSize", "C09.R2", "increment/decrement of the window")
 }
